@@ -123,9 +123,14 @@ def run_harness(pid, cfg, work, seed, tier, extra_env=None):
     outs = []
     ok = True
     pkgs = list(cfg["pkgs"]) + list(cfg.get("extra_pkgs", {}).get(tier, []))
-    for pkg, test in pkgs:
+    for ent in pkgs:
+        pkg, test = ent[0], ent[1]
+        flags = list(cfg.get("go_flags", {}).get(tier, []))
+        for f in (ent[2] if len(ent) > 2 else []):   # per-test flags, e.g. the race detector for one campaign in every tier
+            if f not in flags:
+                flags.append(f)
         to = cfg.get("go_timeout", {}).get(tier, 600 if tier == "quick" else 3000)
-        cmd = [GO, "test"] + cfg.get("go_flags", {}).get(tier, []) + ["-tags", "verif", "-overlay", ov, "-count=1", "-vet=off",
+        cmd = [GO, "test"] + flags + ["-tags", "verif", "-overlay", ov, "-count=1", "-vet=off",
                "-timeout", f"{to}s", "-run", f"^{test}$", pkg]
         rc, out, dt = run(cmd, cwd=REPO, env=go_env(work, seed, tier, extra_env), timeout=to + 60)
         outs.append((pkg, test, rc, out, dt))
@@ -242,7 +247,7 @@ def warm():
     work = tempfile.mkdtemp(prefix="verif-warm-", dir="/var/tmp")
     try:
         ov = make_overlay(work)
-        pkgs = sorted({p for cfg in PROPS.values() for p, _ in cfg["pkgs"]})
+        pkgs = sorted({e[0] for cfg in PROPS.values() for e in cfg["pkgs"]})
         rc, out, dt = run([GO, "test", "-tags", "verif", "-overlay", ov, "-count=1", "-vet=off", "-run", "^$"] + pkgs,
                           cwd=REPO, env=go_env(work, 1, "quick"), timeout=1200)
         log(out[-2000:])
@@ -356,10 +361,13 @@ def main(argv):
         crashed = re.search(r"^(panic: .*|fatal error: .*)$", out, re.M)
         if not m and scheds and crashed:
             m = crashed   # the process died while running the last announced schedule: that schedule is the replay
+        race = re.search(r"WARNING: DATA RACE[\s\S]*?={10,}", out)
+        if not m and race:
+            m = race      # the race detector's report (both accesses with their stacks) is the failing execution
         path = write_replay(pid, tier, seed, "harness-failure", {
             "what": "the correspondence harness failed against the implementation", "pkg": pkg, "test": test,
             "exit": rc, "failing_schedule": scheds[-1][1] if scheds else None,
-            "crash": crashed.group(1) if crashed else None, "output_tail": out})
+            "crash": crashed.group(1) if crashed else None, "data_race": race.group(0)[:4000] if race else None, "output_tail": out})
         suffix = "" if m else " no-failing-input-found"
         log(f"VIOLATION property={pid} replay={path}{suffix}")
         violations = 1
@@ -420,7 +428,7 @@ def main(argv):
             "obligations": len(theorems) + cinfo["obligations"] + (gen_info.get("obligations", 0) if gen_info else 0),
             "discharged": (len(theorems) if pok else 0) + cinfo["discharged"] + (gen_info.get("discharged", 0) if gen_info else 0),
             "checker_cmd": "make -C coq (full .vo) && coqc Properties/%s.v ; go1.26.8 test -tags verif -overlay ... -run %s ; coqc cases_%s_*.v"
-                           % (pid, ",".join(t for _, t in cfg["pkgs"]), pid),
+                           % (pid, ",".join(e[1] for e in cfg["pkgs"]), pid),
             "trusted_base": tb,
             "theorems": theorems + cinfo["theorems"],
             "evaluations": len(cases),
